@@ -113,6 +113,24 @@ def check(tier, seed):
                     res.violation(f'CFG-GNSS {name}{args}: re-encoded payload differs from the protocol oracle (wrong block, wrong bit or collateral change)',
                                   {'property': 'C17', 'input': desc, 'expected_payload': C.hexs(gnss_payload(want)), 'implementation_says': impl[-400:]},
                                   f'c17-gnss|{name}|{ids[:4]}|{args}')
+        # the same frame object decodes a second payload (other block order) and is then edited
+        for _ in range(40 if tier == 'quick' else 2000):
+            ids1 = rng.sample(systems, rng.randrange(1, 6))
+            ids2 = rng.sample(systems, rng.randrange(1, 6))
+            b1 = [(g, 1, 2, rng.getrandbits(32)) for g in ids1]
+            b2 = [(g, 3, 4, rng.getrandbits(32)) for g in ids2]
+            fr = GN.construct(bytearray(gnss_payload(b1)))
+            sys_ = rng.choice(systems)
+            fr.enable_gnss(sys_)
+            fr.data = bytearray(gnss_payload(b2))
+            fr.unpack()
+            name = rng.choice(['enable', 'disable'])
+            cmd, impl = run_helper(fr, name, (sys_,))
+            desc = {'helper': name, 'args': [sys_], 'first_blocks': ids1, 'block_ids': ids2, 'reused_object': True}
+            cases.append(Case('gnss-helper-reused-object', cmd, impl, desc, kind='gnss/reused'))
+            want = oracle_enable(b2, sys_, name == 'enable')
+            if impl.split(' ')[-1] != C.hexs(gnss_payload(want)):
+                res.violation(f'CFG-GNSS {name}({sys_}) on a re-decoded frame object: wrong block changed', {'property': 'C17', 'input': desc, 'expected_payload': C.hexs(gnss_payload(want)), 'implementation_says': impl[-300:]}, 'c17-gnss-reuse')
         for s in (-1, 8, 100):
             fr = GN.construct(bytearray(gnss_payload([(0, 1, 1, 0)])))
             cmd, impl = run_helper(fr, 'enable', (s,))
@@ -172,8 +190,9 @@ def check(tier, seed):
             n = rng.randrange(0, 6)
             arms = [(rng.choice([0, 1, 2, 3, 4, 1]), rng.randrange(-32768, 32768), rng.randrange(-1000, 1001), rng.randrange(-5, 5)) for _ in range(n)]
             pay = bytes([0, n, 0, 0]) + b''.join(bytes([t, 0]) + x.to_bytes(2, 'little', signed=True) + y.to_bytes(2, 'little', signed=True) + z.to_bytes(2, 'little', signed=True) for t, x, y, z in arms)
-            for t in (0, 1, 2, 4, 7):
-                fr = EL.construct(bytearray(pay))
+            fr_shared = EL.construct(bytearray(pay))
+            for t in (0, 1, 2, 4, 7, 0, 1):
+                fr = fr_shared if rng.random() < 0.5 else EL.construct(bytearray(pay))      # several queries on one frame object
                 cmd, impl = run_helper(fr, 'lever', (t,))
                 first = next((a for a in arms if a[0] == t), None)
                 want = 'None' if first is None else f'{first[1]},{first[2]},{first[3]}'
